@@ -428,7 +428,8 @@ theorem enableAll_nil {s : St} (h : s.uninit = []) : enableAll s = s := by
 /-! #### single step and `step_over_breakpoint` -/
 
 theorem singleStep_spec (s : St) (p : Addr) (hp : pc s = some p) :
-    singleStep s = if s.code p == INT3 then s else { s with idx := s.idx + 1 } := by
+    singleStep s = if s.code p == INT3 then s
+      else { s with idx := s.idx + 1, execd := s.execd ++ [(s.idx, s.code p)] } := by
   unfold singleStep; rw [hp]
 
 theorem stepOver_noop_pc (s : St) (h : pc s = none) : stepOverBreakpoint s = s := by
@@ -462,7 +463,8 @@ theorem stepOver_at {orig s} (hinv : Inv orig s) (ho : Bytes orig) (p : Addr) (b
   have hpc1 : pc s1' = some p := hp
   have hc1p : s1'.code p = orig p := by show (bpDisable s b).1.code p = _; rw [hc1, set_apply]; simp
   let s2 := singleStep s1'
-  have hs2 : s2 = if orig p == INT3 then s1' else { s1' with idx := s1'.idx + 1 } := by
+  have hs2 : s2 = if orig p == INT3 then s1'
+      else { s1' with idx := s1'.idx + 1, execd := s1'.execd ++ [(s1'.idx, orig p)] } := by
     show singleStep s1' = _; rw [singleStep_spec s1' p hpc1, hc1p]
   have hs2code : s2.code = s.code.set p (orig p) := by
     rw [hs2]; split <;> exact hc1
@@ -1402,5 +1404,241 @@ theorem execAll_ginv {orig} (ho : Bytes orig) : ∀ (ops : List Op) (s : St), GI
     obtain ⟨i1, i2, i3⟩ := ih _ e1
     rw [execAll_cons]
     exact ⟨i1, i2.trans e2, Nat.le_trans e4 i3⟩
+
+/-! ### 8. the ghost execution log -/
+
+/-- the log is exactly the native run up to `idx`: positions `0 .. idx-1`, each once, in order, each executed on the
+original byte of its instruction -/
+structure LogOk (orig : Code) (s : St) : Prop where
+  pos : s.execd.map (·.1) = List.range s.idx
+  byte : ∀ e ∈ s.execd, e.2 = orig (s.τ.getD e.1 0)
+
+theorem LogOk.congr {orig s s'} (h : LogOk orig s) (he : s'.execd = s.execd) (hi : s'.idx = s.idx)
+    (hτ : s'.τ = s.τ) : LogOk orig s' := by
+  refine ⟨?_, ?_⟩
+  · rw [he, hi]; exact h.pos
+  · rw [he, hτ]; exact h.byte
+
+theorem getD_of_lt (τ : List Addr) (k : Nat) (h : k < τ.length) : τ.getD k 0 = τ[k] := by
+  simp [List.getD, List.getElem?_eq_getElem h]
+
+theorem addAndEnable_execd (s : St) (nb : Bp) : (addAndEnable s nb).execd = s.execd := by
+  unfold addAndEnable
+  cases find? s.active nb.addr <;> rfl
+
+theorem removeByAddr_execd (s : St) (k : UKey) : (removeByAddr s k).1.execd = s.execd := by
+  unfold removeByAddr
+  split
+  · rfl
+  · split
+    · rfl
+    · split
+      · rfl
+      · split <;> rfl
+
+theorem foldl_addAndEnable_execd (us : List (UKey × Kind)) : ∀ s : St,
+    (us.foldl (fun acc u => addAndEnable acc { addr := u.1.addr, kind := u.2 }) s).execd = s.execd := by
+  induction us with
+  | nil => intro s; rfl
+  | cons u us ih => intro s; rw [List.foldl_cons, ih, addAndEnable_execd]
+
+theorem enableAll_execd (s : St) : (enableAll s).execd = s.execd := by
+  unfold enableAll; rw [foldl_addAndEnable_execd]
+
+theorem enableEntry_execd (s : St) : (enableEntry s).execd = s.execd := by
+  unfold enableEntry
+  split
+  · rfl
+  · rw [addAndEnable_execd]
+
+theorem run_log {orig s} (h : Inv orig s) (hl : LogOk orig s) : LogOk orig (run s) := by
+  have hge : s.idx ≤ firstTrap s.code s.τ s.idx := firstFrom_ge _ _ _ h.idxLe
+  have hle : firstTrap s.code s.τ s.idx ≤ s.τ.length := firstFrom_le _ _ _
+  refine ⟨?_, ?_⟩
+  · show (s.execd ++ (List.range' s.idx (firstTrap s.code s.τ s.idx - s.idx)).map
+        fun k => (k, s.code (s.τ.getD k 0))).map (·.1) = List.range (firstTrap s.code s.τ s.idx)
+    rw [List.map_append, hl.pos, List.map_map]
+    have : ((fun x : Nat × Nat => x.1) ∘ fun k => (k, s.code (s.τ.getD k 0))) = id := rfl
+    rw [this, List.map_id, List.range_eq_range', List.range_eq_range']
+    have := @List.range'_append 0 s.idx (firstTrap s.code s.τ s.idx - s.idx) 1
+    rw [show 0 + 1 * s.idx = s.idx by omega, show s.idx + (firstTrap s.code s.τ s.idx - s.idx)
+      = firstTrap s.code s.τ s.idx by omega] at this
+    exact this
+  · intro e he
+    have he' : e ∈ s.execd ++ (List.range' s.idx (firstTrap s.code s.τ s.idx - s.idx)).map
+        fun k => (k, s.code (s.τ.getD k 0)) := he
+    rcases List.mem_append.mp he' with he | he
+    · exact hl.byte e he
+    · obtain ⟨k, hk, rfl⟩ := List.mem_map.mp he
+      obtain ⟨hk1, hk2⟩ := List.mem_range'_1.mp hk
+      have hk3 : k < firstTrap s.code s.τ s.idx := by omega
+      have hkl : k < s.τ.length := by omega
+      show s.code (s.τ.getD k 0) = orig (s.τ.getD k 0)
+      rw [getD_of_lt _ _ hkl]
+      have hne : (s.code s.τ[k] == INT3) = false :=
+        firstFrom_min (fun a => s.code a == INT3) s.τ s.idx k hk1 hk3 hkl
+      have ht := h.text s.τ[k]
+      split at ht
+      · rw [ht] at hne; simp at hne
+      · exact ht
+
+/-- the log after `step_over_breakpoint` at a registered breakpoint -/
+theorem stepOver_at_execd {orig s} (hinv : Inv orig s) (ho : Bytes orig) (p : Addr) (b : Bp)
+    (hp : pc s = some p) (hf : find? s.active p = some b) :
+    (stepOverBreakpoint s).execd = if orig p = INT3 then s.execd else s.execd ++ [(s.idx, orig p)] := by
+  have hb := find?_some hf
+  have hen := hinv.allEn b hb.1
+  have hsv : b.saved = orig p := by rw [hinv.saved b hb.1, hb.2]
+  have hbytes := hinv.bytes ho
+  have hc1 : (bpDisable s b).1.code = s.code.set p (orig p) := by
+    rw [bpDisable_code s b hbytes (by rw [hsv]; exact ho _), hb.2, hsv]
+  let s1' : St := { (bpDisable s b).1 with active := put s.active (bpDisable s b).2 }
+  have hpc1 : pc s1' = some p := hp
+  have hc1p : s1'.code p = orig p := by show (bpDisable s b).1.code p = _; rw [hc1, set_apply]; simp
+  have hs2 : singleStep s1' = if orig p == INT3 then s1'
+      else { s1' with idx := s1'.idx + 1, execd := s1'.execd ++ [(s1'.idx, orig p)] } := by
+    rw [singleStep_spec s1' p hpc1, hc1p]
+  have e : stepOverBreakpoint s
+      = { (bpEnable (singleStep s1') (bpDisable s b).2).1 with
+          active := put (singleStep s1').active (bpEnable (singleStep s1') (bpDisable s b).2).2 } := by
+    unfold stepOverBreakpoint; rw [hp]; simp only [hf, hen, if_true]; rfl
+  rw [e]
+  show (singleStep s1').execd = _
+  rw [hs2]
+  by_cases hcc : orig p = INT3
+  · simp [hcc]; rfl
+  · simp [hcc]; exact ⟨rfl, rfl⟩
+
+theorem stepOver_log {orig s} (h : Inv orig s) (ho : Bytes orig) (hl : LogOk orig s) :
+    LogOk orig (stepOverBreakpoint s) := by
+  cases hp : pc s with
+  | none => rw [stepOver_noop_pc s hp]; exact hl
+  | some p =>
+    cases hf : find? s.active p with
+    | none => rw [stepOver_noop_find s p hp hf]; exact hl
+    | some b =>
+      obtain ⟨_, _, _, g4, g5, _, _, _⟩ := stepOver_at h ho p b hp hf
+      have ge := stepOver_at_execd h ho p b hp hf
+      obtain ⟨hlt, hpe⟩ := pc_some hp
+      by_cases hcc : orig p = INT3
+      · rw [if_pos hcc] at g4 ge
+        exact hl.congr ge g4 g5
+      · rw [if_neg hcc] at g4 ge
+        refine ⟨?_, ?_⟩
+        · rw [ge, g4, List.map_append, hl.pos, List.range_succ]; rfl
+        · rw [ge, g5]
+          intro e he
+          rcases List.mem_append.mp he with he | he
+          · exact hl.byte e he
+          · rw [List.mem_singleton.mp he]
+            show orig p = orig (s.τ.getD s.idx 0)
+            rw [getD_of_lt _ _ hlt, hpe]
+
+theorem traceLoop_log {orig} (ho : Bytes orig) : ∀ (fuel : Nat) (s : St), Inv orig s → LogOk orig s →
+    LogOk orig (traceLoop fuel s).1 := by
+  intro fuel
+  induction fuel with
+  | zero => intro s _ hl; exact hl
+  | succ f ih =>
+    intro s h hl
+    have h1 := run_inv h
+    have l1 := run_log h hl
+    cases hp : pc (run s) with
+    | none => rw [traceLoop_exit f s hp]; exact l1.congr rfl rfl rfl
+    | some p =>
+      cases hf : find? (run s).active p with
+      | none => rw [traceLoop_corrupt f s p hp hf]; exact l1
+      | some b =>
+        by_cases hk : b.kind = .entry
+        · rw [traceLoop_entry f s p b hp hf hk]
+          obtain ⟨e1, e2, e3, _⟩ := enableAll_spec h1 ho
+          have l2 : LogOk orig (enableAll (run s)) := l1.congr (enableAll_execd _) e3 e2
+          obtain ⟨g1, _⟩ := stepOver_gen e1 ho
+          exact ih _ g1 (stepOver_log e1 ho l2)
+        · rw [traceLoop_stop f s p b hp hf hk]; exact l1
+
+theorem exec_log {orig s} (ho : Bytes orig) (h : GInv orig s) (hl : LogOk orig s) (op : Op) :
+    LogOk orig (exec s op).1 := by
+  have hl0 : LogOk orig { s with pokes := [] } := hl.congr rfl rfl rfl
+  cases op with
+  | brk a =>
+    cases hs : s.status with
+    | inProgress =>
+      have e : exec s (.brk a) = (addAndEnable { s with pokes := [] } { addr := a, kind := .user }, .ok) := by
+        simp only [exec, hs]
+      rw [e]
+      have hf := addAndEnable_frame { s with pokes := [] } { addr := a, kind := .user }
+      exact hl0.congr (addAndEnable_execd _ _) hf.idx hf.τ
+    | unload =>
+      have e : exec s (.brk a) = (addUninit { s with pokes := [] } ⟨false, a⟩ .user, .ok) := by
+        simp only [exec, hs]
+      rw [e]; exact hl.congr rfl rfl rfl
+    | exited =>
+      have e : exec s (.brk a) = (addUninit { s with pokes := [] } ⟨false, a⟩ .user, .ok) := by
+        simp only [exec, hs]
+      rw [e]; exact hl.congr rfl rfl rfl
+  | remove a =>
+    rw [exec_remove_eq]
+    have h0 : GInv orig { s with pokes := [] } := h.congr rfl rfl rfl rfl rfl
+    obtain ⟨_, r2, _, r4, _⟩ := removeByAddr_ginv ho h0 a
+    exact hl0.congr (removeByAddr_execd _ _) r4 r2
+  | start =>
+    cases hs : s.status with
+    | unload =>
+      have e : exec s .start = traceLoop (fuelFor { s with pokes := [] })
+          (enableEntry { ({ s with pokes := [] } : St) with status := .inProgress }) := by
+        simp only [exec, hs]
+      rw [e]
+      have hinv : Inv orig { ({ s with pokes := [] } : St) with status := .inProgress } :=
+        (h.live (by rw [hs]; decide)).congr rfl rfl rfl rfl
+      obtain ⟨e1, e2, _, e4, _⟩ := enableEntry_inv ho hinv
+      exact traceLoop_log ho _ _ e1 (hl.congr (enableEntry_execd _) e4 e2)
+    | inProgress =>
+      have e : exec s .start = ({ s with pokes := [] }, .err) := by simp only [exec, hs]
+      rw [e]; exact hl0
+    | exited =>
+      have e : exec s .start = ({ s with pokes := [] }, .err) := by simp only [exec, hs]
+      rw [e]; exact hl0
+  | cont =>
+    cases hs : s.status with
+    | inProgress =>
+      have e : exec s .cont = traceLoop (fuelFor { s with pokes := [] })
+          (stepOverBreakpoint { s with pokes := [] }) := by
+        simp only [exec, hs]
+      rw [e]
+      have hinv : Inv orig { s with pokes := [] } :=
+        (h.live (by rw [hs]; decide)).congr rfl rfl rfl rfl
+      obtain ⟨g1, _⟩ := stepOver_gen hinv ho
+      exact traceLoop_log ho _ _ g1 (stepOver_log hinv ho hl0)
+    | unload =>
+      have e : exec s .cont = ({ s with pokes := [] }, .err) := by simp only [exec, hs]
+      rw [e]; exact hl0
+    | exited =>
+      have e : exec s .cont = ({ s with pokes := [] }, .err) := by simp only [exec, hs]
+      rw [e]; exact hl0
+
+theorem execAll_log {orig} (ho : Bytes orig) : ∀ (ops : List Op) (s : St), GInv orig s → LogOk orig s →
+    LogOk orig (execAll s ops).1 := by
+  intro ops
+  induction ops with
+  | nil => intro s _ hl; exact hl
+  | cons op ops ih =>
+    intro s h hl
+    rw [execAll_cons]
+    exact ih _ (exec_ginv ho h op).1 (exec_log ho h hl op)
+
+theorem init_log (τ : List Addr) (entry : Addr) (orig : Code) (x : Nat) : LogOk orig (init τ entry orig x) :=
+  ⟨rfl, fun e he => by cases he⟩
+
+/-- a log satisfying `LogOk`, written out -/
+theorem LogOk.eq {orig s} (h : LogOk orig s) :
+    s.execd = (List.range s.idx).map (fun k => (k, orig (s.τ.getD k 0))) := by
+  rw [← h.pos, List.map_map]
+  conv => lhs; rw [← List.map_id s.execd]
+  apply List.map_congr_left
+  intro e he
+  show e = (e.1, orig (s.τ.getD e.1 0))
+  rw [← h.byte e he]
+
 
 end BsVerif.Bp
